@@ -10,6 +10,7 @@ import ChibiVerif.Spec.PPSpec
 import ChibiVerif.Lemmas.PPArgs
 import ChibiVerif.Lemmas.PPLemmas
 import ChibiVerif.Lemmas.PPTerm
+import ChibiVerif.Lemmas.PPSubst
 
 namespace ChibiVerif.Props.C09
 open ChibiVerif.PP
@@ -155,8 +156,7 @@ example : ObjOnly [("T", Macro.obj [tk "U", tk "T"]), ("U", .obj [tk "T", tk "U"
 
 /-! ## `subst` against C11 6.10.3.1–6.10.3.3 -/
 
-/-- what the property compares: kind and spelling of every token (stringized text included) -/
-def spell (ts : List Tok) : List (Kind × String) := ts.map fun t => (t.kind, t.text)
+-- `spell ts` (Lemmas/PPSubst.lean): what the property compares — kind and spelling of every token, stringized text included
 
 /-- `subst` of the model for a function-like macro, run with a pure pre-expander `full` (the complete macro
     replacement of an argument as if it were the rest of the file) -/
@@ -173,6 +173,42 @@ def C09_subst_spec_Statement : Prop :=
   ∀ (lx : String → LexOne) (full : List Tok → List Tok) (body : List Tok) (args : List MacroArg) (s : List Tok),
     ChibiVerif.Spec.PPSpec.subst lx full true body args = .ok s →
       ∃ m, modelSubst lx full body args = .ok m ∧ spell m = spell s
+
+/-- **C09 (substitution), proved part**: for every lexer, every pre-expander, every replacement list and every
+    argument list *outside the regions of the two known findings* — `NoPlacemarkerChain body args` (no `p ## q ##`
+    with both arguments empty: C09-placemarker) and `StringizeLiteralSafe body args` (no `\` or `"` outside
+    literals in a stringized argument: C09-stringize-backslash-outside-literal) — and without the constructs that
+    are not C11 6.10.3 or are unspecified by it (`NoExtension`: GNU `, ## __VA_ARGS__`, `__VA_OPT__(`, `## ##`,
+    `## #`), whenever the specification defines the replacement, `subst` produces exactly its spellings.
+    Induction over the replacement list with "newest emitted token vs newest element of the paste stack" as
+    invariant (Lemmas/PPSubst.lean, `subst_sim`).
+    MISSING: `__VA_OPT__` and the GNU comma (specified in Spec/PPSpec.lean, tied by the check, not proved);
+    the converse direction (the specification rejects whatever `subst` rejects) is not claimed. -/
+theorem C09_subst_spec_partial (lx : String → LexOne) (full : List Tok → List Tok) (body : List Tok)
+    (args : List MacroArg) (s : List Tok)
+    (hpm : NoPlacemarkerChain body args) (hbs : StringizeLiteralSafe body args)
+    (hext : NoExtension body args) (hfresh : FreshArgs args)
+    (hspec : ChibiVerif.Spec.PPSpec.subst lx full true body args = .ok s) :
+    ∃ m, modelSubst lx full body args = .ok m ∧ spell m = spell s := by
+  obtain ⟨m, st', hm, hs⟩ := subst_spec_of_region lx full body args s hpm hbs hext hfresh hspec
+  refine ⟨m, ?_, hs⟩
+  unfold modelSubst
+  have : (fun (st : St) (ts : List Tok) => (Except.ok (full ts, st) : Except Err (List Tok × St))) = purePP full := rfl
+  rw [this, hm]
+  rfl
+
+/-- non-vacuity: `#define g(x,y,z) a x ## y ## z # x y` with `g(1, ,3 4)` satisfies all four hypotheses (an empty
+    operand in the middle of a `##` chain, a stringized and a pre-expanded parameter), the specification defines
+    the result, and it is `a 13 4 "1"` followed by the (empty) expansion of `y` -/
+example :
+    let body : List Tok := [tk "a", tk "x", tk "##" .punct, tk "y", tk "##" .punct, tk "z", tk "#" .punct, tk "x", tk "y"]
+    let args : List MacroArg := [{ name := "x", toks := [tk "1" .num] }, { name := "y", toks := [] },
+                                 { name := "z", toks := [tk "3" .num, tk "4" .num] }]
+    NoPlacemarkerChain body args ∧ StringizeLiteralSafe body args ∧ NoExtension body args ∧ FreshArgs args ∧
+    (ChibiVerif.Spec.PPSpec.subst Lex.lexOne id true body args).map spell
+      = .ok [(.ident, "a"), (.num, "13"), (.num, "4"), (.str, "\"1\"")] ∧
+    (modelSubst Lex.lexOne id body args).map spell
+      = .ok [(.ident, "a"), (.num, "13"), (.num, "4"), (.str, "\"1\"")] := by decide
 
 /-! ## `__COUNTER__` -/
 
